@@ -350,7 +350,7 @@ def check_predicates(ctx, cirq, n):
             ga = cls(exponent=e, global_shift=sh)
             gb = cls(exponent=e + rng.choice([2, 4, -2, 1, 0.5, 8, -4, 1e-10]), global_shift=sh)
             ka = kb = cirq.num_qubits(ga)
-        if rng.random() < 0.12:  # vendor gates: equality must look at every parameter of the matrix
+        if rng.random() < 0.15:  # vendor gates: equality must look at every parameter of the matrix
             import cirq_ionq
 
             vals = lambda: rng.choice([0, 0.1, 0.25, 0.5, 0.55, 1.1])
@@ -358,6 +358,8 @@ def check_predicates(ctx, cirq, n):
             mkv = {'gpi': lambda: cirq_ionq.GPIGate(phi=vals()), 'gpi2': lambda: cirq_ionq.GPI2Gate(phi=vals()),
                    'ms': lambda: cirq_ionq.MSGate(phi0=vals(), phi1=rng.choice([0, 0.2]), theta=rng.choice([0.25, 0.1, 0.25])), 'zz': lambda: cirq_ionq.ZZGate(theta=vals())}[fam]
             ga, gb = mkv(), mkv()
+            if fam == 'ms' and rng.random() < 0.6:  # same phases, possibly different theta
+                gb = cirq_ionq.MSGate(phi0=ga.phi0, phi1=ga.phi1, theta=rng.choice([0.25, 0.1, 0.4]))
             ka = kb = cirq.num_qubits(ga)
         a = ga.on(*rng.sample(qs, ka))
         b = gb.on(*rng.sample(qs, kb))
